@@ -46,6 +46,8 @@ pub const SOURCE_POOL: &[&str] = &[
     "new\nline.js", "nul\u{0}.js", "</script>", "/", "http:", "./rel.js", "../up.js", "/abs/x.js",
     // relative names that merely look like the absolute prefixes
     "httpClient.ts", "https-proxy/agent.js", "http", "https", "http/index.js", "htt", "h", "//cdn/x.js",
+    // an ASCII letter followed by a 3- or 4-byte character; strings that also occur in the name pool
+    "v日本/util.js", "x😀.js", "k€/two.js", "C:/w/x.js", "c:\\w\\y.js", "foo", "$", "a",
 ];
 
 pub const NAME_POOL: &[&str] = &[
